@@ -1,12 +1,13 @@
 #!/bin/sh
 # try_seed.sh <seed-dir-name> <property-id> [tier] — runs the FULL check (proof step + correspondence) against a scratch
-# copy of /repo's sources with the seeded change applied; /repo itself is not touched, evidence goes to a scratch dir.
+# copy of /repo's sources with the seeded change applied.  Nothing shared is touched: /repo is not modified, and the Coq
+# development, the extracted models and the OCaml drivers are used from scratch COPIES (the generated facts differ for a
+# seeded source), evidence goes to the scratch directory too.
 d=/verif/seeded/$1
 s=$(mktemp -d /tmp/cjseedfull_XXXXXX)
-cp /repo/cJSON.c /repo/cJSON.h /repo/cJSON_Utils.c /repo/cJSON_Utils.h $s/
-(cd $s && git apply --include='cJSON*' $d/patch.diff) || { echo "patch does not apply"; rm -rf $s; exit 2; }
-cd /verif && VERIF_REPO=$s VERIF_EVIDENCE_DIR=$s/evidence python3 tools/check.py $2 --tier ${3:-quick}; rc=$?
+mkdir $s/src && cp /repo/cJSON.c /repo/cJSON.h /repo/cJSON_Utils.c /repo/cJSON_Utils.h $s/src/
+(cd $s/src && git apply --include='cJSON*' $d/patch.diff) || { echo "patch does not apply"; rm -rf $s; exit 2; }
+cp -a /verif/coq $s/coq; cp -a /verif/ocaml $s/ocaml
+cd /verif && VERIF_REPO=$s/src VERIF_COQ_DIR=$s/coq VERIF_OCAML_DIR=$s/ocaml VERIF_EVIDENCE_DIR=$s/evidence python3 tools/check.py $2 --tier ${3:-quick}; rc=$?
 rm -rf $s
-# the generated facts may have changed with the scratch sources: regenerate them from /repo
-python3 tools/gen_facts.py /repo coq/gen >/dev/null 2>&1
 echo "seed=$1 property=$2 exit=$rc"
